@@ -223,7 +223,7 @@ fn part_a(sh: &mut Shard, rng: &mut Rng, work: &Path) {
                     continue;
                 }
                 // path-less operations only need one path
-                if matches!(op, "list" | "tree" | "rename-symbol") && pi > 0 {
+                if matches!(op, "list" | "tree" | "workspace-symbols") && pi > 0 {
                     continue;
                 }
                 let tok = match sname {
